@@ -330,4 +330,35 @@ func genC19(tier string, r *rng) {
 		args := append([]string{hx(s.data), "D"}, rpmRecord(s.data)...)
 		emit("rpm", args...)
 	}
+	for _, data := range rpmCountSweep() {
+		emit("rpm", append([]string{hx(data), "D"}, rpmRecord(data)...)...)
+	}
+}
+
+// rpmCountSweep: a systematic sweep over ONE package: every index entry of both headers x every small count (0 .. 8) x its
+// own type and the three string types — counts that stay inside the store pass the plausibility pre-check and reach go-rpm
+func rpmCountSweep() (out [][]byte) {
+	mk := func() ([]rpmEntry, []rpmEntry) {
+		e := func(tag, typ int) rpmEntry { return rpmEntry{tag: tag, typ: typ, forceType: -1, forceCount: -1, forceOffset: -1} }
+		sg := []rpmEntry{e(62, 7), e(1004, 7), e(269, 6), e(1005, 7)}
+		sg[0].bin, sg[1].bin, sg[2].strs, sg[3].bin = make([]byte, 16), make([]byte, 16), []string{"da39a3ee5e6b4b0d3255bfef95601890afd80709"}, []byte{0x88, 0x00}
+		mn := []rpmEntry{e(63, 7), e(1000, 6), e(1001, 6), e(1002, 6), e(1004, 9), e(1009, 4), e(1022, 6), e(1064, 6)}
+		mn[0].bin, mn[1].strs, mn[2].strs, mn[3].strs, mn[4].strs, mn[5].ints, mn[6].strs, mn[7].strs =
+			make([]byte, 16), []string{"pkg"}, []string{"1.0"}, []string{"1"}, []string{"summary"}, []uint32{7}, []string{"noarch"}, []string{"4.16.1.3"}
+		return sg, mn
+	}
+	sg0, mn0 := mk()
+	for which := 0; which < 2; which++ {
+		for k := 0; k < []int{len(sg0), len(mn0)}[which]; k++ {
+			for _, typ := range []int{-1, 6, 8, 9} {
+				for cnt := 0; cnt <= 8; cnt++ {
+					sg, mn := mk()
+					hs := [][]rpmEntry{sg, mn}[which]
+					hs[k].forceType, hs[k].forceCount = typ, cnt
+					out = append(out, rpmBytes(3, sg, mn))
+				}
+			}
+		}
+	}
+	return
 }
